@@ -523,6 +523,32 @@ func genReload(repo, out string) {
 		_ = x
 		visit(fd, 0)
 	}
+	// writeFileAtomic (both copies): the file-system calls of the main flow in program order (deferred clean-up excluded)
+	for _, wf := range []struct{ name, file string }{{"wfaStepsApp", "internal/app/run.go"}, {"wfaStepsMcp", "internal/mcp/server.go"}} {
+		_, ff := parseFile(filepath.Join(repo, wf.file))
+		fd := findFunc(ff, "writeFileAtomic")
+		var steps []string
+		if fd != nil && fd.Body != nil {
+			var visit func(n ast.Node) bool
+			visit = func(n ast.Node) bool {
+				switch v := n.(type) {
+				case *ast.FuncLit, *ast.DeferStmt:
+					return false
+				case *ast.CallExpr:
+					if sel, ok := v.Fun.(*ast.SelectorExpr); ok {
+						if id, ok := sel.X.(*ast.Ident); ok && (id.Name == "os" || id.Name == "tmp" || id.Name == "ioutil") {
+							steps = append(steps, sel.Sel.Name)
+						}
+					} else if id, ok := v.Fun.(*ast.Ident); ok && id.Name == "syncDir" {
+						steps = append(steps, "syncDir")
+					}
+				}
+				return true
+			}
+			ast.Inspect(fd.Body, visit)
+		}
+		fmt.Fprintf(&b, "/-- %s writeFileAtomic: calls on os / the temp file in program order -/\ndef %s : List String := %s\n\n", wf.file, wf.name, leanList(steps))
+	}
 	b.WriteString("/-- runtime accessors one ingress request calls, in program order (each takes and releases the read lock on its own) -/\ndef ingressRequestCalls : List String := " + leanList(calls) + "\n\nend Hk.Gen\n")
 	must(os.WriteFile(filepath.Join(out, "ReloadSteps.lean"), []byte(b.String()), 0o644))
 }
